@@ -434,16 +434,26 @@ def functions_used(prog: Program) -> List[str]:
 class Env:
     """Series access + function table for the interpreter."""
 
-    def __init__(self, series: Dict[str, Any], t: Any, funcs: Dict[str, Callable]) -> None:
+    def __init__(self, series: Dict[str, Any], t: Any, funcs: Dict[str, Callable], strict_L: Optional[int] = None) -> None:
         self.series = series
         self.t = t
         self.funcs = funcs
+        self.strict_L = strict_L  # concrete replay: positions are checked against the span, never wrapped
+
+    def _idx(self, v: Var) -> Any:
+        if self.strict_L is None:
+            return self.t + v.off if v.off else self.t
+        L = self.strict_L
+        p = (self.t if self.t >= 0 else self.t + L) + v.off
+        if not 0 <= p < L:
+            raise IndexError(f'{v.name}[t{v.off:+d}] is outside the span')
+        return p
 
     def read(self, v: Var) -> Any:
-        return self.series[v.name][self.t + v.off if v.off else self.t]
+        return self.series[v.name][self._idx(v)]
 
     def write(self, v: Var, value: Any) -> None:
-        self.series[v.name][self.t + v.off if v.off else self.t] = value
+        self.series[v.name][self._idx(v)] = value
 
 
 def _num(text: str) -> Any:
@@ -490,12 +500,22 @@ def interp(e: Any, env: Env) -> Any:
     raise TypeError(e)
 
 
-def run_reference(prog: Program, env: Env) -> None:
-    """One evaluation pass: equations in order of first definition (symbol-list
-    order of their targets), each seeing earlier assignments (Gauss-Seidel)."""
-    done = set()
+def evaluation_order(prog: Program) -> List[Eq]:
+    """Equations in symbol-list order: by first appearance of their target's
+    name anywhere in the script (C01: 'equations run in symbol-list order')."""
+    first: List[str] = []
+    for v, _ in mentions(prog):
+        if v.name not in first:
+            first.append(v.name)
+    uniq: List[Eq] = []
     for eq in prog:
-        if eq in done:
-            continue  # the same equation written twice is one equation
-        done.add(eq)
+        if eq not in uniq:  # the same equation written twice is one equation
+            uniq.append(eq)
+    return sorted(uniq, key=lambda eq: first.index(eq.target.name))
+
+
+def run_reference(prog: Program, env: Env) -> None:
+    """One evaluation pass: equations in symbol-list order, each seeing earlier
+    assignments (Gauss-Seidel)."""
+    for eq in evaluation_order(prog):
         env.write(eq.target, interp(eq.expr, env))
